@@ -279,4 +279,13 @@ _LOAD_CACHE = {}''')],
          new='''            elif kind == "p" and angmom >= 1:
                 result += 2 * angmom + 1''',
          why="pure p functions are counted instead of rejected"),
+    # ---------------------------------------------------------------- later additions
+    dict(id="m27_reissue_iterates_live_list", prop="C16", file="iodata/api.py",
+         old='''            for warning in tuple(warning_list):''',
+         new='''            for warning in warning_list:''',
+         why="(F16 re-introduced) re-issued warnings can land in the list being iterated when threads interleave: endless loop"),
+    dict(id="m28_sdf_bonds_uninitialised", prop="C16", file="iodata/formats/sdf.py",
+         old='''    for ibond in range(nbond):''',
+         new='''    for ibond in range(nbond - 1):''',
+         why="the last row of the pre-allocated (np.empty) bond array is never filled: the result is whatever the memory held"),
 ]
